@@ -964,3 +964,31 @@ mut("C11", "r14-group-leaves-operand-expected", "database/query/parser.go",
 mut("C11", "r14-not-leaves-nothing-expected", "database/query/parser.go",
     "\t\tcase \"not\":\n\t\t\twrapInNot = true\n\t\t\texpectingMore = true", "\t\tcase \"not\":\n\t\t\twrapInNot = true\n\t\t\texpectingMore = false", "C11-R14|database/query.parseAndOr / loop back-edge")
 from_patch("C14", "r11-preput-hooks-outside-lock", "C14-f2", "C14-R11|database.(*Controller).runPostGetHooks ~ database.(*Controller).runPrePutHooks", comment="one-sided edit (round-6 seed C14-f2)")
+
+# ---- round 7 (seeded changes -g1/-g2) --------------------------------------------------------
+def r7(prop, name, seed, expect):
+    from_patch(prop, name, seed, expect, comment="round-7 seed " + seed)
+r7("C01", "r12-enable-lost-when-dependency", "C01-g1", "C01-R12|modules.(*Module).Enable")
+r7("C02", "r18-wrapper-drops-data-for-ttl", "C02-g1", "C02-R18|")
+r7("C02", "r18-controller-query-scopes-swapped", "C02-g2", "C02-R18|")
+r7("C03", "r9-typed-meta-as-json", "C03-g1", "C03-R9|database/record MarshalRecord / section sequence")
+r7("C04", "r14-regex-derived-after-compile", "C04-g1", "C04-R14|config.Register")
+r7("C06", "r14-stop-complete-ignores-ctrl-fn", "C06-g1", "C06-R14|modules.(*Module).checkIfStopComplete")
+r7("C07", "r14-restart-keeps-stop-flag", "C07-g1", "C07-R14|")
+r7("C08", "r11-unpack8-128-one-byte", "C08-g1", "C08-R11|formats/varint.Unpack8")
+r7("C10", "r7-container-block-size-narrowed", "C10-g1", "C10-R7|")
+r7("C10", "r7-getnextn32-peeks-four", "C10-g2", "C10-R7|")
+r7("C11", "r16-parsekey-splits-all-colons", "C11-g1", "C11-R16|")
+r7("C11", "r15-int-operand-parsed-32bit", "C11-g2", "C11-R15|database/query.newIntCondition")
+r7("C12", "r13-session-write-from-read", "C12-g1", "C12-R13|api / AuthToken fields")
+r7("C12", "r14-empty-permission-is-user", "C12-g2", "C12-R14|api.parseAPIPermission")
+r7("C13", "r12-immediate-delete-not-notified", "C13-g1", "C13-R12|database.(*Controller).Put")
+r7("C14", "r12-flag-bytes-swapped-on-read", "C14-g2", "C14-R12|database/record.Meta GenCode / flag bytes")
+r7("C15", "r11-start-resets-counters", "C15-g1", "C15-R11|modules / activity counters are only")
+r7("C15", "r11-counters-share-a-cell", "C15-g2", "C15-R11|modules.Module / the three activity counters")
+r7("C16", "r14-appendcontainer-adopts-slice", "C16-g1", "C16-R14|container.(*Container).AppendContainer")
+r7("C17", "r11-any-2xx-accepted", "C17-g2", "C17-R11|updater.(*ResourceRegistry).makeRequest")
+r7("C18", "r5-zip-symlink-members", "C18-g1", "C18-R5|updater.copyFromZipArchive")
+r7("C19", "r12-download-not-marked-active", "C19-g1", "C19-R12|updater.(*ResourceRegistry).GetFile")
+r7("C19", "r13-file-version-pattern-single-digit", "C19-g2", "C19-R13|updater version patterns agree")
+r7("C20", "r9-tracer-first-line-unguarded", "C20-g1", "C20-R9|log.formatLine")
